@@ -423,6 +423,18 @@ class P(Prop):
             for nm in ("a", "b")[:rng.randrange(0, 3)]:
                 feats[nm] = self.rand_signal(rng, n, floats=(sc == "f"))
         names = ["x", "y", "z"] + list(feats)
+        if n and rng.random() < 0.06:
+            # the kernel is the name of a feature holding as many weights as there are observations
+            if n % 2 == 0:
+                n -= 1
+                sigs = {nm: v[:n] for nm, v in sigs.items()}
+                feats = {nm: v[:n] for nm, v in feats.items()}
+            wts = [rng.choice([0, 1, 1, 2, 3, 0.5]) for _ in range(n)]
+            wts[n // 2] = rng.choice([1, 2, 4])
+            feats["w"] = wts
+            k = {"t": "feat", "name": "w"}
+            if sc == "f" and rng.random() < 0.5:
+                sc = "r"
         how, dims, const = self.rand_dim(rng, names)
         c = {"kind": "seq", "x": sigs["x"], "y": sigs["y"], "z": sigs["z"], "feats": feats, "dims": dims, "k": k, "sc": sc, "how": how}
         if const:
@@ -527,7 +539,7 @@ class P(Prop):
                 if st["api"] == "seq" and st["k"]["t"] in TABLE_KERNELS + ("userfn",):
                     sc = "f"
                 st.pop("sc", None)
-            out.append({"kind": "session", "steps": steps, "sc": sc})
+            out.append({"kind": "session", "steps": steps, "sc": sc, "prebuild": rng.random() < 0.5})
         # ---- weight lists with zero weights: judged where the valid weights have a positive sum
         made = 0
         while made < (300 if quick else 3000):
@@ -610,6 +622,11 @@ class P(Prop):
             return None
         return c
 
+    def kweights(self, case):
+        """the weights the kernel of a case / session step stands for (a feature-name kernel reads them in the track)"""
+        k = case.get("k") or {"t": "gaussian", "p": case.get("w")}
+        return self.op_weights(case) if k["t"] == "feat" else shape_weights(k)
+
     def op_weights(self, case):
         k = case["k"]
         if k["t"] == "feat":
@@ -660,7 +677,7 @@ class P(Prop):
     def describe(self, case):
         kind = case["kind"]
         if kind == "session":
-            t = {"kind": kind, "scalar": case["sc"], "steps": len(case["steps"]),
+            t = {"kind": kind, "scalar": case["sc"], "steps": len(case["steps"]), "prebuilt_kernels": bool(case.get("prebuild")),
                  "apis": "+".join(sorted({st["api"] for st in case["steps"]})),
                  "allnan_or_empty": any(self.step_degenerate(st) for st in case["steps"]),
                  "default_dim": sum(1 for st in case["steps"] if st.get("how", "default") == "default")}
@@ -697,8 +714,7 @@ class P(Prop):
         if kind == "op":
             w = self.op_weights(case)
             return len(w) >= 3
-        k = case.get("k", {"t": "gaussian", "p": case.get("w")})
-        if len(shape_weights(k)) < 3:
+        if len(self.kweights(case)) < 3:
             return False
         sigs = [case["sig"]] if kind in ("feat", "zerow") else [case["x"], case["y"], case["z"]]
         return any(len(set(x for x in s if x is not None)) > 1 for s in sigs)
@@ -791,8 +807,8 @@ class P(Prop):
         finally:
             self.restore_globals()
 
-    def call_seq(self, st):
-        """one call of filter_seq / Track.smooth on its own track; never raises"""
+    def call_seq(self, st, kern=None):
+        """one call of filter_seq / Track.smooth on its own track; never raises. `kern`: a kernel object built beforehand"""
         import engine
         api = st.get("api", "seq")
         k = self.step_kernel(st)
@@ -805,7 +821,8 @@ class P(Prop):
                 t.smooth(st["w"])
                 r = t
             else:
-                kern = self.mk_kernel(k)
+                if kern is None:
+                    kern = self.mk_kernel(k)
                 how = st.get("how", "list")
                 if how == "default":
                     r = self.F.filter_seq(t, kern)
@@ -820,8 +837,8 @@ class P(Prop):
             if isinstance(e, KeyboardInterrupt):
                 raise
             res = {"err": engine.err_kind(e), "detail": str(e)[:200]}
-        res["window"] = self.safe_window(k)
         res["state"] = self.globals_now()
+        res["window"] = self.safe_window(k)
         return res
 
     def impl_raw(self, case):
@@ -857,7 +874,17 @@ class P(Prop):
             return res
         if kind == "session":
             steps = []
-            for st in case["steps"]:
+            # all the kernel objects of the session may be alive before the first call
+            prebuilt = {}
+            if case.get("prebuild"):
+                for i, st in enumerate(case["steps"]):
+                    if st["api"] == "seq":
+                        try:
+                            prebuilt[i] = self.mk_kernel(st["k"])
+                        except BaseException as e:
+                            if isinstance(e, KeyboardInterrupt):
+                                raise
+            for i, st in enumerate(case["steps"]):
                 if st["api"] == "freq":
                     try:
                         t = self.mk_track(st["x"], st["y"], st["z"])
@@ -870,7 +897,7 @@ class P(Prop):
                             raise
                     steps.append({"api": "freq", "state": self.globals_now()})
                 else:
-                    steps.append(self.call_seq(st))
+                    steps.append(self.call_seq(st, prebuilt.get(i)))
             return {"steps": steps}
         raise ValueError(kind)
 
@@ -1237,6 +1264,8 @@ class P(Prop):
         if kind in ("op", "badk"):
             return
         k = case.get("k", {"t": "gaussian", "p": case.get("w")})
+        if k["t"] == "feat":
+            return
         N = len(shape_weights(k))
         names = self._sig_names(case)
         n = len(case[names[0]])
@@ -1289,9 +1318,9 @@ class P(Prop):
             allsig = dict({"x": case["x"], "y": case["y"], "z": case["z"]}, **case["feats"])
             return domain_ok(self.op_weights(case), allsig[case["in"]])
         k = case.get("k", {"t": "gaussian", "p": case.get("w")}) if kind != "smooth" else {"t": "gaussian", "p": case["w"]}
-        if k["t"] not in ("list", "int", "dirac") and support_of(k) < 1:
+        if k["t"] not in ("list", "int", "dirac", "feat") and support_of(k) < 1:
             return False
-        w = shape_weights(k)
+        w = self.kweights(dict(case, k=k))
         if kind == "feat":
             return domain_ok(w, case["sig"])
         if len(case["x"]) == 0:
